@@ -89,7 +89,7 @@ async def history(in_protocol=True):
                 # the same job is scheduled again after a failure (retry without an intermediate rollback)
                 name = rng.choice(retry)
                 j = jobs[name]
-                req = CWLHardwareRequirement(cwl_version="v1.2", cores=j["cores"], memory=j["mem"], tmpdir=1, outdir=1)
+                req = CWLHardwareRequirement(cwl_version="v1.2", cores=j["cores"], memory=j["mem"], tmpdir=1, outdir=1) if j["cores"] else None
                 job = Job(name=name, workflow_id=0, inputs={}, input_directory=None, output_directory=None, tmp_directory=None)
                 j["status"] = Status.WAITING
                 pending[name] = asyncio.create_task(sched.schedule(job, binding, req))
@@ -99,6 +99,9 @@ async def history(in_protocol=True):
                 # (now and then a request that the location can NEVER satisfy, also as the very first one: it stays waiting)
                 cores, mem = rng.choice([1, 2, 3, 3, 6]), rng.choice([256, 1024, 2048, 2048, 8192])
                 req = CWLHardwareRequirement(cwl_version="v1.2", cores=cores, memory=mem, tmpdir=1, outdir=1)
+                if rng.random() < (0.5 if not jobs else 0.15):
+                    # a step without any hardware requirement (often the first one a location sees): it reserves nothing
+                    cores, mem, req = 0, 0, None
                 job = Job(name=name, workflow_id=0, inputs={}, input_directory=None, output_directory=None, tmp_directory=None)
                 jobs[name] = {"cores": cores, "mem": mem, "status": Status.WAITING}
                 pending[name] = asyncio.create_task(sched.schedule(job, binding, req))
@@ -228,7 +231,7 @@ async def multi_target_history():
     return bad
 
 
-async def real_usage_history():
+async def real_usage_history(variant=None):
     """the release of a completed job measures the job's directories with the REAL get_storage_usages: the directories hold a regular
     file, a link to a large file elsewhere and a dangling link.  Cores and memory go back to zero whatever the directories contain,
     and the storage kept is what the job really left there (links are not followed)"""
@@ -241,7 +244,10 @@ async def real_usage_history():
         cfg = DeploymentConfig(name="dep", type="fixed-hardware", config={}, external=True, lazy=False, workdir=workdir)
         await ctx.deployment_manager.deploy(cfg)
         ctx.deployment_manager.get_connector("dep").hardware = Hardware(cores=CAP_CORES, memory=CAP_MEM, storage={os.sep: Storage(os.sep, 10 ** 6)})
-        dirs = {k: os.path.join(workdir, k) for k in ("input", "output", "tmp", "elsewhere")}
+        # (directory names of which one is a string prefix of the other, as numbered job directories are: out-1, out-10)
+        variants = [{"output": "output", "tmp": "tmp"}, {"output": "job-1", "tmp": "job-10"}, {"output": "job_b", "tmp": "job_b.tmp"}]
+        names = variants[variant % 3] if variant is not None else rng.choice(variants)
+        dirs = {k: os.path.join(workdir, names.get(k, k)) for k in ("input", "output", "tmp", "elsewhere")}
         for d in dirs.values():
             os.makedirs(d)
         job = Job(name="/step/0.0", workflow_id=0, inputs={}, input_directory=dirs["input"], output_directory=dirs["output"], tmp_directory=dirs["tmp"])
@@ -249,6 +255,7 @@ async def real_usage_history():
         await asyncio.wait_for(ctx.scheduler.schedule(job, BindingConfig(targets=[Target(deployment=cfg, service=None, workdir=workdir)]), req), 30)
         await ctx.scheduler.notify_status(job.name, Status.RUNNING)
         open(os.path.join(dirs["output"], "out.dat"), "wb").write(b"x" * (1 << 20))
+        open(os.path.join(dirs["tmp"], "scratch.dat"), "wb").write(b"z" * (2 << 20))
         open(os.path.join(dirs["elsewhere"], "big.dat"), "wb").write(b"y" * (4 << 20))
         kind = rng.choice(["link to a file elsewhere", "dangling link", "both"])
         if kind in ("link to a file elsewhere", "both"):
@@ -264,8 +271,11 @@ async def real_usage_history():
             bad = {"failure": "C11: cores/memory still reserved after the job completed", "reserved": (hw.cores, hw.memory), "job_directory_holds": kind}
         if bad is None and hw is not None:
             kept = sum(s.size for s in hw.storage.values())
-            if kept > 1.5:  # MiB: the job left one 1 MiB file; what its links point to is not its usage
+            if kept > 3.5:  # MiB: the job left a 1 MiB and a 2 MiB file; what its links point to is not its usage
                 bad = {"failure": "the storage kept for a completed job counts what its symbolic links point to", "kept_MiB": kept, "job_directory_holds": kind}
+            elif kept < 2.99:
+                bad = {"failure": "the storage kept for a completed job is less than the measured usage of its directories (1 MiB in the output directory, 2 MiB in the temporary one)",
+                       "kept_MiB": kept, "directories": names}
     except Exception as e:
         bad = {"failure": f"exception {type(e).__name__}: {e}"}
     finally:
@@ -310,10 +320,96 @@ def _stacked_class():
         async def get_available_locations(self, service=None):
             inner = next(iter((await self.connector.get_available_locations()).values()))
             hw = None if self.slots is not None else Hardware(cores=self.cores, memory=10 ** 6, storage={os.sep: Storage(os.sep, 10 ** 7)})
-            return {self.loc_name: AvailableLocation(name=self.loc_name, deployment=self.deployment_name, service=service, hostname="localhost", local=True,
-                                                     slots=self.slots if self.slots is not None else 1, hardware=hw, stacked=self.stacked, wraps=inner)}
+            names = [self.loc_name] if getattr(self, "replicas", 1) == 1 else [f"{self.loc_name}-r{i}" for i in range(self.replicas)]
+            return {n: AvailableLocation(name=n, deployment=self.deployment_name, service=service, hostname="localhost", local=True,
+                                         slots=self.slots if self.slots is not None else 1,
+                                         hardware=None if hw is None else Hardware(cores=hw.cores, memory=hw.memory, storage={os.sep: Storage(os.sep, 10 ** 7)}),
+                                         stacked=self.stacked, wraps=inner) for n in names}
 
     return _Stacked
+
+
+async def replica_history():
+    """one deployment exposing 2..3 replica locations (containers) that are all stacked on ONE host, jobs that take 1..R of them: on the
+    replicas and on the host the reservation is, at every point, the sum over the fireable and running jobs of what each of their
+    locations needs (once per location a job holds), never more than the level has, and zero once every job has ended"""
+    workdir = tempfile.mkdtemp(prefix="c10r.")
+    ctx = build_context({"database": {"type": "default", "config": {"connection": ":memory:"}}, "path": workdir})
+    Stacked = _stacked_class()
+    bad = None
+    try:
+        host_cap, rep_cap, R = float(rng.choice([4, 6, 8])), float(rng.choice([2, 3, 4])), rng.randint(2, 3)
+        host = _Host("host-dep", workdir, host_cap)
+        cont = Stacked("cont", workdir, host, "c", rep_cap, stacked=True)
+        cont.replicas = R
+        ctx.deployment_manager.deployments_map.update({"host-dep": host, "cont": cont})
+        caps = {"host": host_cap, **{f"c-r{i}": rep_cap for i in range(R)}}
+        sched = ctx.scheduler
+        jobs, pending, need, trace = {}, {}, {}, []
+
+        def reserved():
+            return {k: v.cores for k, v in sched.hardware_locations.items() if v.cores}
+
+        for step in range(rng.randint(4, 14)):
+            if rng.random() < 0.55 and len(jobs) < 6:
+                name = f"/step/0.{len(jobs)}"
+                job = Job(name=name, workflow_id=0, inputs={}, input_directory=workdir, output_directory=workdir, tmp_directory=workdir)
+                jobs[name] = Status.WAITING
+                need[name] = rng.choice([1, 1, 2])
+                nloc = rng.randint(1, R)
+                tg = Target(deployment=DeploymentConfig(name="cont", type="stacked", config={}), workdir=workdir, locations=nloc)
+                req = CWLHardwareRequirement(cwl_version="v1.2", cores=need[name], memory=10, tmpdir=0, outdir=0)
+                pending[name] = asyncio.create_task(sched.schedule(job, BindingConfig(targets=[tg]), req))
+                trace.append(("schedule", name, f"{nloc} locations", f"{need[name]} cores each"))
+            else:
+                live = [n for n, st in jobs.items() if n not in pending and st in (Status.FIREABLE, Status.RUNNING)]
+                if live:
+                    n = rng.choice(live)
+                    new = Status.RUNNING if jobs[n] == Status.FIREABLE and rng.random() < 0.5 else rng.choice([Status.COMPLETED, Status.FAILED])
+                    await sched.notify_status(n, new)
+                    jobs[n] = new
+                    trace.append(("notify", n, new.name))
+            for _ in range(50):
+                await asyncio.sleep(0)
+            for n, t in list(pending.items()):
+                if t.done() or (n in sched.job_allocations and sched.job_allocations[n].status == Status.FIREABLE):
+                    await asyncio.wait_for(t, 10)
+                    jobs[n] = Status.FIREABLE
+                    del pending[n]
+            used = {}
+            for n, alloc in sched.job_allocations.items():
+                if alloc.status in (Status.FIREABLE, Status.RUNNING):
+                    for loc in alloc.locations:
+                        used[loc.name] = used.get(loc.name, 0.0) + need[n]
+                        used["host"] = used.get("host", 0.0) + need[n]
+            got = reserved()
+            over = [k for k, u in used.items() if u > caps[k] + 1e-9]
+            if over:
+                bad = {"failure": "C10: the jobs active on a location need more than it has", "location": over[0], "needed": used[over[0]], "capacity": caps[over[0]], "trace": trace[-8:]}
+                break
+            # recorded finding KF-C11-replicas-share-a-host: the requirement booked on the shared host is summed over ALL the replicas the
+            # deployment exposes (R) for every location a job holds, and released only once per held location
+            held = {n: len(a.locations) for n, a in sched.job_allocations.items()}
+            kf_host = sum(R * need[n] * held[n] for n, a in sched.job_allocations.items() if a.status in (Status.FIREABLE, Status.RUNNING)) \
+                + sum((R - 1) * need[n] * held[n] for n, a in sched.job_allocations.items() if a.status in (Status.COMPLETED, Status.FAILED))
+            want = {k: v for k, v in used.items() if v}
+            if got != want and {k: v for k, v in got.items() if k != "host"} == {k: v for k, v in want.items() if k != "host"} and got.get("host", 0.0) == kf_host:
+                KNOWN.add("KF-C11-replicas-share-a-host")
+            elif got != want:
+                bad = {"failure": "C11: the reservation on a replica or on the host they share is not the sum over the fireable and running jobs (once per location a job holds)",
+                       "reserved_cores": got, "expected_cores": {k: v for k, v in used.items() if v}, "replicas": R, "trace": trace[-8:]}
+                break
+        for t in pending.values():
+            t.cancel()
+    except Exception as e:
+        bad = {"failure": f"exception {type(e).__name__}: {e}", "trace": trace[-6:] if "trace" in dir() else None}
+    finally:
+        try:
+            await ctx.close()
+        except Exception:
+            pass
+        shutil.rmtree(workdir, ignore_errors=True)
+    return bad
 
 
 async def stacked_history(force_unstacked=False):
@@ -403,6 +499,16 @@ async def stacked_history(force_unstacked=False):
     return bad
 
 
+async def _guard(coro, what):
+    """a history in which a call on the scheduler never returns (a deadlock between the scheduler's condition and a per-job lock, a lost
+    wake-up that leaves notify_status blocked) is a failure of the history, not of the driver"""
+    try:
+        return await asyncio.wait_for(coro, 90)
+    except asyncio.TimeoutError:
+        return {"failure": "C12: a schedule request or a status notification does not return (the scheduler hangs): every history ends within a second otherwise",
+                "history": what}
+
+
 async def search(n):
     if os.environ.get("VERIF_PROPERTY", "C11") == "C10":
         # on which storage of a location a job directory is booked (contracts/HW.py)
@@ -410,16 +516,17 @@ async def search(n):
         bad = HW.check_lookup(max(200, 10 * n))
         if bad:
             return bad
-    for _ in range(3):
-        bad = await real_usage_history()
+    for v in range(3):
+        bad = await real_usage_history(v)
         if bad:
             return bad
     for _ in range(min(max(120, 4 * n), 2000)):
-        bad = await stacked_history() or await stacked_history(force_unstacked=True) or await multi_target_history()
+        bad = (await _guard(stacked_history(), "stacked wrappers") or await _guard(stacked_history(force_unstacked=True), "non-stacked wrappers")
+               or await _guard(multi_target_history(), "two targets per job") or await _guard(replica_history(), "replicas sharing a host"))
         if bad:
             return bad
-    for _ in range(n):
-        bad = await history(in_protocol=True)
+    for _ in range(min(max(80, 4 * n), 1500)):
+        bad = await _guard(history(in_protocol=True), "one location")
         if bad:
             return bad
     # the recorded finding: notifications out of order
